@@ -251,7 +251,7 @@ def effects(body, prov=None):
                 ty = body.local_ty(pl["l"]) if not pl["p"] else ""
                 if ty.startswith("&mut "):
                     out.append({"kind": "mutarg", "target": prov.operand(a), "value": None, "callee": callee_name(t),
-                                "bb": bi, "sp": t.get("sp")})
+                                "args": [prov.operand(x) for x in t["args"]], "bb": bi, "sp": t.get("sp")})
     return out
 
 
@@ -261,3 +261,65 @@ def target_field(t):
         owner = t[2]
         return owner, t[3]
     return None
+
+
+def predicate_walk(body, start, valuation, classify, max_steps=4000):
+    """Predicate-abstraction walk of the decision DAG from block `start`.
+    valuation(kind, bb, term) -> True/False/None for a bool switch ('switch'), or for an
+    assert ('assert': True = passes); None = unknown (both successors explored).
+    classify(bb, path_blocks) -> outcome label or None to continue.
+    Returns the set of outcome labels over all explored paths."""
+    prov = Prov(body)
+    outcomes = set()
+    stack = [(start, (start,))]
+    steps = 0
+    seen = set()
+    while stack:
+        bb, path = stack.pop()
+        steps += 1
+        if steps > max_steps:
+            outcomes.add("<budget>")
+            break
+        lab = classify(bb, path)
+        if lab is not None:
+            outcomes.add(lab)
+            continue
+        t = body.term(bb)
+        k = t["k"]
+        nxt = []
+        if k == "switch":
+            d = prov.operand(t["d"])
+            v = valuation("switch", bb, d) if t.get("dty") == "bool" else valuation("switchval", bb, d)
+            tm = {int(x): y for x, y in t["ts"]}
+            if t.get("dty") == "bool" and v is not None:
+                if v:
+                    nxt = [tm.get(1, t["o"]) if 1 in tm else t["o"]]
+                else:
+                    nxt = [tm.get(0, t["o"])]
+            elif t.get("dty") != "bool" and v is not None:
+                nxt = [tm.get(v, t["o"])]
+            else:
+                nxt = body.succ(bb)
+        elif k == "assert":
+            v = valuation("assert", bb, t)
+            if v is False:
+                outcomes.add("panic")
+                continue
+            nxt = body.succ(bb)
+        elif k == "return":
+            outcomes.add("return")
+            continue
+        elif k in ("unreachable",):
+            continue
+        else:
+            nxt = body.succ(bb)
+            if not nxt:
+                outcomes.add("diverge:" + callee_name(t) if k == "call" else "end")
+                continue
+        for n in nxt:
+            key = (n, path[-1] if path else None)
+            if n in path and (n, bb) in seen:
+                continue
+            seen.add((n, bb))
+            stack.append((n, path + (n,)))
+    return outcomes
